@@ -721,9 +721,22 @@ func init() {
 				for _, p := range [][4]int{{0, 3, 0, 1}, {3, 0, 1, 0}, {1, 4, 2, 2}, {2, 3, 2, 1}, {4, 1, 1, 1}, {0, 0, 1, 0}} {
 					jobs = append(jobs, J(rootPkg, "H_C04_acceptor", p[0], p[1], p[2], p[3]))
 				}
+				// an application that answers every inbound message from its callback, buffers 0..2,
+				// schedules explored (coarse, preemption bound 0..1, 2 rotations)
+				for _, scn := range []int{0, 1, 3} {
+					for _, buf := range []int{0, 1, 2} {
+						for pb := 0; pb <= 1; pb++ {
+							for rot := 0; rot <= 1; rot++ {
+								j := J(rootPkg, "H_C04_acceptor", scn, 0, (scn+buf)%3, buf, 1, pb, rot)
+								j.EngineReplay = true
+								jobs = append(jobs, j)
+							}
+						}
+					}
+				}
 				return jobs
 			},
-			Explanation: "Symbolic execution of (a) Conn.runReader over the real bufio.Reader SSA on a scripted net.Conn that hands out the concatenation of 1-3 well-formed messages (symbolic type/values; scenarios with '10=' inside values, a tag ending in the CheckSum tag with a three-character value, a 5000-byte message followed by small ones) cut at every first position, at pairs of positions, one byte per read and all at once, with channel buffer sizes 0/1/2/8 and a trailing partial message; (b) Conn.Write for k messages with an injected write failure; (c) the complete Initiator.Serve plumbing (conn.serve + reader goroutine, DefaultHandler.Run, writer loop, forwarder loop, errgroup) and (d) two concurrent Acceptor.serve calls on one Acceptor, all as interpreted goroutines. Asserted: the handler gets exactly the peer's messages, once, in order, byte-identical, and only those of its own connection; nothing for a partial message; end of stream ends the reader with an error; outbound messages reach their own socket whole, once, in hand-off order with a deadline set; Serve returns and the socket is closed after the peer closes.",
+			Explanation: "Symbolic execution of (a) Conn.runReader over the real bufio.Reader SSA on a scripted net.Conn that hands out the concatenation of 1-3 well-formed messages (symbolic type/values; scenarios with '10=' inside values, a tag ending in the CheckSum tag with a three-character value, a 5000-byte message followed by small ones) cut at every first position, at pairs of positions, one byte per read and all at once, with channel buffer sizes 0/1/2/8 and a trailing partial message; (b) Conn.Write for k messages with an injected write failure; (c) the complete Initiator.Serve plumbing (conn.serve + reader goroutine, DefaultHandler.Run, writer loop, forwarder loop, errgroup) and (d) two concurrent Acceptor.serve calls on one Acceptor, all as interpreted goroutines; (e) one Acceptor.serve whose application answers every inbound message from inside its callback, buffers 0..2, coarse schedule exploration (a stuck hand-off between reader, handler loop and writer is a deadlock = violation). Asserted: the handler gets exactly the peer's messages, once, in order, byte-identical, and only those of its own connection; nothing for a partial message; end of stream ends the reader with an error; outbound messages reach their own socket whole, once, in hand-off order with a deadline set; Serve returns and the socket is closed after the peer closes.",
 			Rule:        "case = (scenario, cut placement / mode, buffer size, partial length) x path",
 			Bounds: map[string]string{
 				"quick":    "<=3 messages per stream (78..5100 bytes), all single cut positions 1..40, pairs on a 3-step grid up to 30, buffer sizes 0/1/2/8; Serve/serve plumbing under the deterministic cooperative scheduler (one schedule)",
